@@ -9,7 +9,7 @@ from .. import contracts, gen, ref
 from ..core import FAILED
 
 DECIDING = ["contract:partial_transpose", "O2:involution", "O2:all=transpose", "O2:complement", "contract:realignment",
-            "O3:realign-product", "O3:frobenius", "O4:cvxpy-value", "H1:repeat-call", "O1:many-subsystems"]
+            "O3:realign-product", "O3:frobenius", "O4:cvxpy-value", "H1:repeat-call", "O1:many-subsystems", "O1:single-number-dim"]
 RULE = ("cases = square (dims 1..4, n<=5) and rectangular (dims 2..4, n<=3) operators x every subset S as list/array/int x dtype, "
         "unique-id entries; realignment on square and rectangular bipartite blocks with every dim calling form; a signature is "
         "(monitor, n, |S|, rectangular?) and is non-trivial when the result differs from the input; plus 9..13 subsystems, repeat calls with the same "
@@ -113,8 +113,28 @@ def _run_many(ctx, spec, rng):
     ctx.sample("O1:many-subsystems", {"dims": d, "sys": s})
 
 
+def _single_number_dim(ctx, rng):
+    """dim given as one number d (one-element list / array, float): it means [d, N/d]."""
+    from toqito.channels import partial_transpose
+
+    d1, d2 = int(rng.integers(1, 5)), int(rng.integers(1, 5))
+    if d1 * d2 < 2:
+        d2 = 2
+    x = gen.unique_ids((d1 * d2, d1 * d2), "ifc"[int(rng.integers(0, 3))])
+    dim = [[d1], np.array([d1]), float(d1)][int(rng.integers(0, 3))]
+    s = [[0], [1], 0, 1, [0, 1]][int(rng.integers(0, 5))]
+    res = ctx.call(partial_transpose, x, s, dim)
+    if res is FAILED:
+        return
+    want = ref.partial_transpose(x, [s] if isinstance(s, int) else s, [d1, d2], [d1, d2])
+    ctx.check("O1:single-number-dim", np.shape(res) == want.shape and np.array_equal(res, want), sig=(d1 == d2, type(dim).__name__, str(s)), nt=d1 != d2,
+              mech="partial_transpose:single-number-dim", detail={"d1": d1, "d2": d2, "dim": dim, "sys": s})
+
+
 def _run_sq(ctx, spec, rng):
     n = spec[1]
+    if n == 2:
+        _single_number_dim(ctx, rng)
     for _ in range(3):
         d = gen.dims(rng, n, 1, 4 if n <= 4 else 3, max_total=144 if ctx.tier == "quick" else 256)
         big = int(np.prod(d))
